@@ -988,6 +988,381 @@ def part_ttp_real(ctx, res, oracle_only):
     guard(res, 'ttp-evaluate', ttp_desc(c), post_ttp, res, c, pool.snaps, table, exc, model, li, 'ttp-real', 'ttp-calculator-real')
 
 
+# ---------------------------------------------------------------- (h) histories of the condition list of ONE model
+# A pool of condition objects and one model; random sequences of addStoppingCondition (both modes),
+# clearStoppingConditions, reset, solve, TTPCalculator construction (+ calculateTTP) on the same model, further runs.
+# The oracle keeps its own registration state (which pool objects are registered NOW, with which mode, and the latch
+# each object must have) from the documented meaning of the calls and evaluates every run against it.
+HIST_TEMPS = [600.0, 650.0, 700.0]
+
+
+def first_crossings(H, conds, m):
+    """independent of the implementation: the (satisfied, time, row) a CLEAR latch gets from tests on rows 1..m of H"""
+    out = []
+    t = H['time']
+    for k in conds:
+        x = H[QUANT[k['q']]][:, k['col']]
+        j = next((j for j in range(1, m + 1) if beyond(k['d'], k['value'], x[j])), None)
+        if j is None:
+            out.append((False, -1.0, None))
+        elif beyond(k['d'], k['value'], x[j - 1]):
+            out.append((True, float(t[j - 1]), j))
+        else:
+            out.append((True, float(t[j - 1]) + (k['value'] - float(x[j - 1])) / (float(x[j]) - float(x[j - 1])) * float(t[j] - t[j - 1]), j))
+    return out
+
+
+def reg_class(reg):
+    if not reg:
+        return 'none-registered'
+    o, a = any(m for _, m in reg), any(not m for _, m in reg)
+    return 'or-and-mixed' if (o and a) else 'or-only' if o else 'and-only'
+
+
+def gen_ops(r, K, nops, allow_ttp, sims, max_solves=99, max_T=3):
+    ops, ns = [], 0
+    pick = lambda: [int(v) for v in r.permutation(K)[: int(r.integers(1, min(K, 3) + 1))]]
+    for _ in range(nops):
+        u = r.random()
+        if u < 0.30:
+            ops.append(('add', int(r.integers(0, K)), bool(r.random() < 0.5)))
+        elif u < 0.42:
+            ops.append(('clear',))
+        elif u < 0.52:
+            ops.append(('reset',))
+        elif u < 0.80:
+            if ns < max_solves:
+                ops.append(('solve', sims(r))); ns += 1
+        elif u < 0.87 or not allow_ttp:
+            ops.append(('ttpinit', pick()))
+        else:
+            ops.append(('ttp', pick(), int(r.integers(1, max_T + 1)), sims(r) * 2))
+    if not ops or ops[-1][0] not in ('solve', 'ttp'):
+        ops.append(('solve', sims(r)))
+    return ops
+
+
+def hist_case(s):
+    r = np.random.default_rng([s, 7])
+    nP, nE = int(r.integers(1, 3)), int(r.integers(1, 3))
+    phases = [str(p) for p in r.permutation(PHASES)[:nP]]
+    elements = [str(e) for e in r.permutation(ELEMS)[:nE]]
+    L = int(r.choice([4, 6, 10, 15]))
+    H0, _ = gen_history(r, L, nP, nE)
+    H0['time'] = H0['time'] - H0['time'][0]
+    Hs = {0.0: H0}
+    corr_ = r.random() < 0.7
+    for T in HIST_TEMPS:
+        if corr_:       # same shapes, other magnitudes and time steps: thresholds stay inside the range at every temperature
+            H = {'time': np.concatenate([[0.0], np.cumsum(np.diff(H0['time']) * 10 ** r.uniform(-0.5, 0.5, L - 1))])}
+            for nm in QUANT:
+                H[nm] = H0[nm] * (1 + 0.3 * r.random(H0[nm].shape[1]))
+        else:
+            H, _ = gen_history(r, L, nP, nE)
+            H['time'] = H['time'] - H['time'][0]
+        Hs[T] = H
+    K = int(r.integers(2, 6))
+    pool = []
+    keys = list(Hs)
+    for _ in range(K):
+        q = int(r.integers(0, 6))
+        names = elements if q == 5 else phases
+        sel = None if r.random() < 0.3 else names[int(r.integers(0, len(names)))]
+        col = col_of(names, sel)
+        Hk = Hs[keys[int(r.integers(0, len(keys)))]]
+        d = pick_dir(r, Hk[QUANT[q]][:, col])
+        value, tk = pick_threshold(r, Hk[QUANT[q]][:, col], d)
+        pool.append(dict(q=q, d=d, sel=sel, col=col, value=float(value), tk=tk))
+    span = float(min(H['time'][-1] for H in Hs.values()))
+    ops = gen_ops(r, K, int(r.integers(3, 12)), True, lambda r_: float(span * r_.uniform(0.15, 0.7)))
+    return dict(kind='hist', s=s, nP=nP, nE=nE, phases=phases, elements=elements, L=L, Hs=Hs, pool=pool, ops=ops, rk4=bool(r.random() < 0.3))
+
+
+def hist_real_case(s, with_ttp):
+    r = np.random.default_rng([s, 8])
+    # 450 C, dtScale 0.05: f = 5.6e-7 at 300 s, 2.8e-3 at 1000 s; R = 5.8e-10 / 1.4e-9
+    pool = [dict(q=0, d='G', sel='AL3ZR', col=0, value=float(10 ** r.uniform(-6.5, -4.0)), tk='vf>'),
+            dict(q=0, d='G', sel=None, col=0, value=0.5, tk='vf>never'),
+            dict(q=1, d='G', sel=None, col=0, value=float(r.uniform(5e-10, 9e-10)), tk='R>'),
+            dict(q=5, d='L', sel='ZR', col=0, value=float(r.uniform(3.9e-3, 3.999e-3)), tk='x<'),
+            dict(q=0, d='G', sel=None, col=0, value=float(10 ** r.uniform(-3.5, -3.0)), tk='vf>late')]
+    if with_ttp:      # the model is used for an ordinary run with conditions, then handed to a calculator, then used again
+        ops = gen_ops(r, len(pool), int(r.integers(2, 5)), False, lambda r_: float(r_.choice([150.0, 300.0])), max_solves=1)
+        ops = [o for o in ops if o[0] != 'reset']
+        ops += [('ttp', [0, 4] if r.random() < 0.5 else [2, 0, 4], 2, 1000.0)]
+        ops += gen_ops(r, len(pool), int(r.integers(1, 4)), False, lambda r_: float(r_.choice([150.0, 300.0])), max_solves=1)
+    else:
+        ops = gen_ops(r, len(pool), int(r.integers(5, 10)), False, lambda r_: float(r_.choice([100.0, 200.0, 300.0])), max_solves=3)
+    return dict(kind='hist-real', s=s, with_ttp=bool(with_ttp), nP=1, nE=1, phases=['AL3ZR'], elements=['ZR'], pool=pool, ops=ops, rk4=False)
+
+
+class SynthAdapter:
+    tag = 'hist'
+    ref_rtol = 0.0
+
+    def __init__(self, c):
+        self.c = c
+
+    def make(self):
+        c = self.c
+        return synth_class()(c['phases'], c['elements'], lambda T, c=c: c['Hs'][round(float(T), 6)])
+
+    def after_reset(self, M):
+        pass
+
+    def solve(self, M, sim):
+        from kawin.solver import SolverType
+        M.solve(sim, solverType=SolverType.RK4 if self.c['rk4'] else SolverType.EXPLICITEULER, minDtFrac=1e-14, maxDtFrac=1)
+
+    def temps(self, nT):
+        return HIST_TEMPS[0], HIST_TEMPS[nT - 1], nT
+
+
+class RealAdapter(SynthAdapter):
+    tag = 'hist-real'
+    ref_rtol = 1e-6         # the reference is a second thermodynamics-backed run: compared as numbers, not as the same rows
+
+    def make(self):
+        M = real_model()
+        M.setConstraints(dtScale=0.05)      # only shortens the initial ramp of the time step
+        return M
+
+    def after_reset(self, M):               # reset() re-creates the population balance with defaults: the user re-applies them
+        M.setPBMParameters(cMin=1e-10, cMax=1e-8, bins=75, minBins=50, maxBins=100)
+
+    def solve(self, M, sim):
+        from kawin.solver import SolverType
+        M.solve(sim, solverType=SolverType.EXPLICITEULER, verbose=False)
+
+    def temps(self, nT):
+        return 723.15, 748.15, nT
+
+
+def hist_adapter(c):
+    return RealAdapter(c) if c['kind'] == 'hist-real' else SynthAdapter(c)
+
+
+def hist_desc(c, at=None):
+    d = dict(kind=c['kind'], s=c['s'], ops=[list(o) if o[0] != 'solve' else ['solve', float(o[1])] for o in c['ops']],
+             pool=[dict(condition=CLASSES[k['q']], inequality=k['d'], value=k['value'], selector=k['sel']) for k in c['pool']],
+             iterator='RK4' if c['rk4'] else 'Euler')
+    if c['kind'] == 'hist-real':
+        d['with_ttp'] = c['with_ttp']
+    if at is not None:
+        d['at_call'] = at
+    return d
+
+
+def drive_hist(c):
+    """the whole history on the real classes; one record per call as the model sees it (a calculateTTP is
+    `reset; solve` per temperature)"""
+    import warnings
+    ad = hist_adapter(c)
+    rec, exc = [], None
+    try:
+      with warnings.catch_warnings(), contextlib.redirect_stdout(io.StringIO()), np.errstate(all='ignore'):
+        warnings.simplefilter('ignore')
+        from kawin.precipitation.TimeTemperaturePrecipitation import TTPCalculator
+        M = ad.make()
+        objs = [make_cond(k['q'], k['d'], k['value'], k['sel']) for k in c['pool']]
+        lat = lambda: [(bool(o.isSatisfied()), float(o.satisfiedTime())) for o in objs]
+
+        def reg():
+            sc, mo = getattr(M, '_stoppingConditions', None), getattr(M, '_stopConditionMode', None)
+            if sc is None or mo is None or len(sc) != len(mo):
+                return None
+            return [(next((i for i, o in enumerate(objs) if o is x), -1), bool(b)) for x, b in zip(sc, mo)]
+
+        for oi, op in enumerate(c['ops']):
+            if op[0] == 'add':
+                M.addStoppingCondition(objs[op[1]], 'or' if op[2] else 'and')
+                rec.append(dict(k='A', oi=oi, i=op[1], isOr=op[2], lat=lat(), reg=reg()))
+            elif op[0] == 'clear':
+                M.clearStoppingConditions()
+                rec.append(dict(k='C', oi=oi, lat=lat(), reg=reg()))
+            elif op[0] == 'reset':
+                M.reset(); ad.after_reset(M)
+                rec.append(dict(k='R', oi=oi, lat=lat(), reg=reg()))
+            elif op[0] == 'solve':
+                k0 = int(M.pData.n)
+                ad.solve(M, op[1])
+                rec.append(dict(k='S', oi=oi, k0=k0, tf=float(M.finalTime), m=int(M.pData.n), H=pdata_hist(M.pData), lat=lat(), reg=reg(), sim=op[1]))
+            elif op[0] == 'ttpinit':
+                TTPCalculator(M, [objs[i] for i in op[1]])
+                rec.append(dict(k='T', oi=oi, idx=list(op[1]), lat=lat(), reg=reg()))
+            else:
+                ttp = TTPCalculator(M, [objs[i] for i in op[1]])
+                rec.append(dict(k='T', oi=oi, idx=list(op[1]), lat=lat(), reg=reg()))
+                pool = SnapPool(M, objs)
+                Tlo, Thi, nT = ad.temps(op[2])
+                ttp.calculateTTP(Tlo, Thi, nT, op[3], pool=pool)
+                table = np.array(ttp.transformationTimes, dtype=float)
+                for ti, sn in enumerate(pool.snaps):
+                    # independent reference: the same configuration WITHOUT stopping conditions through the same calls
+                    ref = ad.make(); ref.reset(); ref.setTemperature(sn['T'])
+                    ref.solve(op[3], verbose=True, vIt=1000)
+                    rec.append(dict(k='R', oi=oi, lat=None, reg=None, ttp=True))
+                    rec.append(dict(k='S', oi=oi, k0=0, tf=sn['tf'], m=int(sn['m']), H=sn['H'], lat=sn['post'], reg=None, ttp=True, T=sn['T'], idx=list(op[1]),
+                                    ret=[float(v) for v in sn['ret']], row=[float(v) for v in table[ti]], maxTime=float(op[3]),
+                                    ref=dict(H=pdata_hist(ref.pData), m=int(ref.pData.n)), temperature=sn['temperature']))
+                rec[-1]['reg'] = reg()
+    except Exception as e:
+        exc = excinfo(e)
+    return rec, exc
+
+
+def oracle_hist(res, c, rec, exc):
+    """the property on a whole history, against the oracle's OWN registration state"""
+    ad = hist_adapter(c)
+    K = len(c['pool'])
+    sh_reg, sh_lat, past, carried = [], [(False, -1.0)] * K, 'fresh-model', None
+    nsolve = 0
+    for ri, R in enumerate(rec):
+        desc = hist_desc(c, at=R['oi'])
+        k = R['k']
+        if k == 'A':
+            sh_reg.append((R['i'], R['isOr']))
+        elif k == 'C':
+            sh_reg = []; past = 'after-clear'
+        elif k == 'R':
+            for i, _ in sh_reg:
+                sh_lat[i] = (False, -1.0)
+        elif k == 'T':
+            carried = reg_class(sh_reg).replace('-registered', '')
+            sh_reg = [(i, False) for i in R['idx']]; past = 'after-ttp-constructor'
+        else:
+            act = [dict(c['pool'][i], mode='or' if o else 'and') for i, o in sh_reg]
+            seg = dict(H=R['H'], k0=R['k0'], m=R['m'], tf=R['tf'], active=len(act), pre=[sh_lat[i] for i, _ in sh_reg], post=[R['lat'][i] for i, _ in sh_reg])
+            cls = ('ttp-run:model-carried-%s' % carried) if R.get('ttp') else ('%s:%s' % (past, reg_class(sh_reg)))
+            res.count('%s:solve:%s' % (ad.tag, cls)); nsolve += 1
+            nv = len(res.violations)
+            if R.get('ttp') and float(R['H']['time'][0]) != 0.0:
+                res.violate('hist:%s:history-not-restarted' % cls, 'the history of this temperature does not start at t = 0 (model not reset)', dict(desc, temperature=R['T']), float(R['H']['time'][0]), 0.0)
+            oracle_segment(res, 'hist:%s:' % cls, dict(desc, temperature=R['T']) if R.get('ttp') else desc, act, seg, ad.tag)
+            if len(res.violations) > nv:
+                return nsolve          # the oracle's state cannot be continued past a run that broke the rule
+            for (i, _), p in zip(sh_reg, seg['post']):
+                sh_lat[i] = p
+            if R.get('ttp'):
+                d2 = dict(desc, temperature=R['T'], maxTime=R['maxTime'])
+                want = [R['lat'][i][1] for i in R['idx']]
+                if R['ret'] != want or R['row'] != R['ret']:
+                    res.violate('hist:%s:table-not-condition-times' % cls, 'transformationTimes row differs from satisfiedTime() of the calculator\'s conditions', d2, R['row'], want)
+                exp = first_crossings(R['ref']['H'], [c['pool'][i] for i in R['idx']], R['ref']['m'])
+                tt = R['ref']['H']['time']
+                for j, (e, got) in enumerate(zip(exp, R['ret'])):
+                    if e[0]:
+                        step = float(tt[e[2]] - tt[e[2] - 1])
+                        ok = abs(got - e[1]) <= 1e-9 * step + 1e-12 * abs(e[1]) + ad.ref_rtol * abs(e[1])
+                    else:
+                        ok = got == -1.0
+                    if not ok:
+                        res.violate('hist:%s:time-differs-from-run-without-conditions' % cls,
+                                    'calculator condition %d (%s %s %r): reported %r, but an identically configured model run WITHOUT stopping conditions to maxTime crosses at %r'
+                                    % (j, CLASSES[c['pool'][R['idx'][j]]['q']], c['pool'][R['idx'][j]]['d'], c['pool'][R['idx'][j]]['value'], got, e[1]), d2, got, e[1])
+                        return nsolve
+                if ad.tag == 'hist-real' and not np.all(R['temperature'] == R['T']):
+                    res.violate('hist:%s:wrong-temperature' % cls, 'the run for this temperature was not made at this temperature', d2,
+                                [float(np.min(R['temperature'])), float(np.max(R['temperature']))], R['T'])
+                res.count('%s:ttp-temperatures' % ad.tag)
+        if R['lat'] is not None:
+            regd = set(i for i, _ in sh_reg)
+            for i in range(K):
+                if tuple(R['lat'][i]) != tuple(sh_lat[i]):
+                    res.violate('hist:latch-wrong-after-%s:%s' % ({'A': 'add', 'C': 'clear', 'R': 'reset', 'T': 'ttp-constructor', 'S': 'solve'}[k],
+                                                                 'registered-object' if i in regd else 'unregistered-object'),
+                                'pool object %d reports %r after call %d; by the calls made so far it must report %r' % (i, R['lat'][i], R['oi'], sh_lat[i]),
+                                desc, list(R['lat'][i]), list(sh_lat[i]))
+                    return nsolve
+    return nsolve
+
+
+def hist_line(c, rec):
+    toks = ['sc.hist', enc_names(c['phases'], c['elements']), str(len(c['pool']))]
+    toks += [enc_cond(k['q'], k['d'], k['value'], k['sel']) for k in c['pool']]
+    toks.append(str(len(rec)))
+    for R in rec:
+        if R['k'] == 'A':
+            toks.append('A %d %s' % (R['i'], 'T' if R['isOr'] else 'F'))
+        elif R['k'] in ('C', 'R'):
+            toks.append(R['k'])
+        elif R['k'] == 'T':
+            toks.append('T ' + vlib.enc_ilist(R['idx']))
+        else:
+            toks.append('S %s %s %d %d' % (enc_hist(c['nP'], c['nE'], R['H']), f2b(R['tf']), len(R['H']['time']) + 5, R['k0']))
+    return ' '.join(toks)
+
+
+def compare_hist(res, c, rec, ln):
+    desc = hist_desc(c)
+    t = Toks(ln)
+    if not t.ok or t.t[1] == 'raise':
+        res.disagree('sc.hist model error', desc, 'ok', ln[:80]); return
+    n = t.nat()
+    if n != len(rec):
+        res.disagree('sc.hist number of calls', desc, len(rec), n); return
+    K = len(c['pool'])
+    for R in rec:
+        m = t.nat(); stopped = t.bool()
+        lat = [(t.bool(), t.flt()) for _ in range(K)]
+        reg = [(t.nat(), t.bool()) for _ in range(t.nat())]
+        d2 = dict(desc, at_call=R['oi'], call=R['k'])
+        if R['k'] == 'S':
+            if m != R['m']:
+                res.disagree('last row of a run inside a history', d2, R['m'], m); return
+            if bool(R['H']['time'][R['m']] < R['tf']) and not stopped:
+                res.disagree('run inside a history ended before the end time but the model did not stop', d2, True, stopped); return
+        if R['lat'] is not None and (len(lat) != len(R['lat']) or any(a[0] != b[0] or not close(a[1], b[1], 1e-12) for a, b in zip(R['lat'], lat))):
+            res.disagree('latches of the pool objects after a call of a history', d2, R['lat'], lat); return
+        if R['reg'] is not None:
+            res.count('hist:registered-list-compared')
+            if [tuple(x) for x in R['reg']] != reg:
+                res.disagree('registered conditions (object, mode) after a call of a history', d2, R['reg'], reg); return
+    res.count('hist:calls-compared', len(rec))
+
+
+def post_hist(res, c, rec, exc, model, li, first):
+    desc = hist_desc(c)
+    ad = hist_adapter(c)
+    if exc is not None:
+        report_exc(res, 'history-of-calls', desc, exc)
+    ns = oracle_hist(res, c, rec, exc)
+    res.case((c['kind'], c['s']), nontrivial=exc is None and ns > 0)
+    res.count('%s:calls' % ad.tag, len(rec))
+    for o in c['ops']:
+        res.count('%s:op:%s' % (ad.tag, o[0]))
+    if first:
+        res.sample(dict(desc, runs=[dict(k0=R['k0'], m=R['m'], tf=R['tf']) for R in rec if R['k'] == 'S']), cap=6)
+    if model is not None and li is not None and exc is None:
+        compare_hist(res, c, rec, model[li])
+    res.traces += sum(1 for R in rec if R['k'] == 'S')
+
+
+def part_hist(ctx, res, N, oracle_only, real=()):
+    lines, recs = [], []
+    jobs = [('hist', None)] * N + [('hist-real', w) for w in real]
+    for kind, w in jobs:
+        s = ctx.rng.getrandbits(40)
+        ok, c = guard(res, 'hist-generate', dict(kind=kind, s=s, with_ttp=w), (lambda: hist_case(s) if kind == 'hist' else hist_real_case(s, w)))
+        if not ok:
+            continue
+        ok, r = guard(res, 'history-of-calls', hist_desc(c), drive_hist, c)
+        if not ok:
+            continue
+        rec, exc = r
+        li = None
+        if exc is None:
+            ok, ln = guard(res, 'hist-encode', hist_desc(c), hist_line, c, rec)
+            if ok:
+                li = len(lines); lines.append(ln)
+        recs.append((c, rec, exc, li))
+    model = driver(ctx, res, lines, oracle_only)
+    seen = set()
+    for c, rec, exc, li in recs:
+        guard(res, 'hist-evaluate', hist_desc(c), post_hist, res, c, rec, exc, model, li, c['kind'] not in seen)
+        seen.add(c['kind'])
+
+
 # ---------------------------------------------------------------- combination alone (exhaustive small)
 def comb_one(modes, sats):
     M = synth_class()(['A'], ['X'], lambda T: None)
@@ -1048,6 +1423,8 @@ def corr(ctx, oracle_only=False, scale=1):
     guard(res, 'part-obj', {}, part_obj, ctx, res, ctx.n(1200, 30000) * scale, oracle_only)
     guard(res, 'part-synth', {}, part_synth, ctx, res, ctx.n(250, 6000) * scale, oracle_only)
     guard(res, 'part-ttp-synth', {}, part_ttp_synth, ctx, res, ctx.n(40, 800) * scale, oracle_only)
+    guard(res, 'part-hist', {}, part_hist, ctx, res, ctx.n(200, 5000) * scale, oracle_only,
+          [False] * 6 + [True] if ctx.thorough else [False])
     if ctx.thorough:
         guard(res, 'part-real', {}, part_real, ctx, res, ['all-and', 'or-mix', 'never', 'never'] + ['any'] * 10 + ['or-mix'] * 4, oracle_only)
         guard(res, 'part-ttp-real', {}, part_ttp_real, ctx, res, oracle_only)
@@ -1092,6 +1469,12 @@ def replay(ctx, entry):
                 report_exc(r, 'ttp-calculator', ttp_desc(c), exc)
             else:
                 oracle_ttp(r, ttp_desc(c), c['conds'], pool.snaps, table, kind)
+        elif kind in ('hist', 'hist-real'):
+            c = hist_case(s) if kind == 'hist' else hist_real_case(s, bool(case.get('with_ttp')))
+            rec, exc = drive_hist(c)
+            if exc is not None:
+                report_exc(r, 'history-of-calls', hist_desc(c), exc)
+            oracle_hist(r, c, rec, exc)
         elif kind == 'comb':
             modes, sats = tuple(case['modes']), tuple(case['satisfied'])
             post_comb(r, modes, sats, comb_one(modes, sats), None, None)
